@@ -66,3 +66,31 @@ Proof.
   f_equal. rewrite flat_map_app. cbn [flat_map]. rewrite lookup_none_flat by (apply H; left; reflexivity).
   rewrite !app_nil_r. reflexivity.
 Qed.
+
+(* an anonymous (wildcard) recipient: EVERY presented key is tried -- whichever of them opens the packet contributes
+   its session key, wherever it stands among the presented keys *)
+Theorem wildcard_tries_every_key (es : list pkesk) (ks : list N) e j k :
+  In e es -> p_id e = None -> In j ks -> lookup j (p_open e) = Some k -> In k (found_pk es ks).
+Proof.
+  intros He Hid Hj Hl. unfold found_pk. apply in_flat_map. exists e. split; [exact He|].
+  apply in_flat_map. exists j. split; [exact Hj|]. unfold id_match. rewrite Hid, Hl. left. reflexivity.
+Qed.
+
+(* a named recipient: the named key, if presented and able to open the packet, contributes its session key ... *)
+Theorem named_key_is_tried (es : list pkesk) (ks : list N) e i k :
+  In e es -> p_id e = Some i -> In i ks -> lookup i (p_open e) = Some k -> In k (found_pk es ks).
+Proof.
+  intros He Hid Hj Hl. unfold found_pk. apply in_flat_map. exists e. split; [exact He|].
+  apply in_flat_map. exists i. split; [exact Hj|]. unfold id_match. rewrite Hid, N.eqb_refl, Hl. left. reflexivity.
+Qed.
+
+(* ... and no other key is tried on it: what a single named packet contributes comes from the named key *)
+Theorem named_packet_only_named_key (ks : list N) e i k :
+  p_id e = Some i -> In k (found_pk [e] ks) -> In i ks /\ lookup i (p_open e) = Some k.
+Proof.
+  intros Hid H. unfold found_pk in H. cbn [flat_map] in H. rewrite app_nil_r in H.
+  apply in_flat_map in H. destruct H as (j & Hj & Hk). unfold id_match in Hk. rewrite Hid in Hk.
+  destruct (N.eqb_spec i j) as [->|Hne]; [|destruct Hk].
+  destruct (lookup j (p_open e)) as [k'|] eqn:El; [|destruct Hk].
+  destruct Hk as [<-|[]]. split; [exact Hj|reflexivity].
+Qed.
